@@ -249,10 +249,42 @@ def overlaps(per):
     return n
 
 
+def _linearise(nodes, prog, conf, bits):
+    succ = {n: list(prog.get(n, [])) for n in nodes}
+    for bit, (x, y) in zip(bits, conf):
+        a, b = (x.tid, x.seq), (y.tid, y.seq)
+        if bit:
+            a, b = b, a
+        succ[a].append(b)
+    # Kahn with a deterministic tie-break (lowest worker id first)
+    indeg = {n: 0 for n in nodes}
+    for n in nodes:
+        for m in succ[n]:
+            indeg[m] += 1
+    ready = sorted(n for n in nodes if indeg[n] == 0)
+    order = []
+    while ready:
+        n = ready.pop(0)
+        order.append(n)
+        for m in succ[n]:
+            indeg[m] -= 1
+            if indeg[m] == 0:
+                ready.append(m)
+        ready.sort()
+    if len(order) != len(nodes):
+        return None
+    return [t for t, _ in order]
+
+
 def traces(per, conf, cap=4096):
     """
     one schedule (list of worker ids) per Mazurkiewicz trace: every acyclic orientation of the conflict pairs together with
-    program order, linearised.  returns (schedules, n_orientations, n_cyclic, capped)
+    program order, linearised.  returns (schedules, n_orientations, n_cyclic, capped).
+
+    When there are more than `cap` orientations the enumeration is deviation-bounded instead of given up: a deviation is one
+    conflict pair oriented against the default (lower worker id first); all orientations with 0, 1, 2, ... deviations - and their
+    mirror images, counted from the all-reversed orientation - are produced until `cap` orientations have been used.  `capped`
+    is then the number of deviations completed + 1 (truthy), so that the caller can report the bound it reached.
     """
     nodes = [(t, i) for t in sorted(per) for i in range(len(per[t]))]
     prog = {}
@@ -260,48 +292,50 @@ def traces(per, conf, cap=4096):
         for i in range(len(per[t]) - 1):
             prog.setdefault((t, i), []).append((t, i + 1))
     c = len(conf)
-    if 2 ** c > cap:
-        return None, 2 ** c, 0, True
     scheds = []
     ncyc = 0
+    if 2 ** c > cap:
+        used, done = 0, -1
+        for k in range(c + 1):
+            level = list(itertools.combinations(range(c), k))
+            if used + 2 * len(level) > cap and k > 0:
+                break
+            for idx in level:
+                for mirror in (0, 1):
+                    bits = [mirror] * c
+                    for i in idx:
+                        bits[i] = 1 - mirror
+                    used += 1
+                    sc = _linearise(nodes, prog, conf, bits)
+                    if sc is None:
+                        ncyc += 1
+                    elif sc not in scheds:
+                        scheds.append(sc)
+            done = k
+        return scheds, 2 ** c, ncyc, done + 1
     for bits in itertools.product((0, 1), repeat=c):
-        succ = {n: list(prog.get(n, [])) for n in nodes}
-        for bit, (x, y) in zip(bits, conf):
-            a, b = (x.tid, x.seq), (y.tid, y.seq)
-            if bit:
-                a, b = b, a
-            succ[a].append(b)
-        # Kahn with a deterministic tie-break (lowest worker id first)
-        indeg = {n: 0 for n in nodes}
-        for n in nodes:
-            for m in succ[n]:
-                indeg[m] += 1
-        ready = sorted(n for n in nodes if indeg[n] == 0)
-        order = []
-        while ready:
-            n = ready.pop(0)
-            order.append(n)
-            for m in succ[n]:
-                indeg[m] -= 1
-                if indeg[m] == 0:
-                    ready.append(m)
-            ready.sort()
-        if len(order) != len(nodes):
+        sc = _linearise(nodes, prog, conf, bits)
+        if sc is None:
             ncyc += 1
             continue
-        scheds.append([t for t, _ in order])
+        scheds.append(sc)
     return scheds, 2 ** c, ncyc, False
 
 
-def preemption_bounded(per, bound):
-    """fallback when there are too many conflict pairs: all schedules with at most `bound` preemptions"""
+def preemption_bounded(per, bound, limit=None):
+    """all schedules with at most `bound` preemptions (the first `limit` of them in depth-first order, if given)"""
     lens = {t: len(per[t]) for t in per}
     tids = sorted(per)
     out = []
 
+    class _Full(Exception):
+        pass
+
     def rec(pos, cur, used, sched):
         if all(pos[t] == lens[t] for t in tids):
             out.append(list(sched))
+            if limit is not None and len(out) >= limit:
+                raise _Full()
             return
         enabled = [t for t in tids if pos[t] < lens[t]]
         for t in enabled:
@@ -315,7 +349,10 @@ def preemption_bounded(per, bound):
             rec(pos, t, cost, sched)
             sched.pop()
             pos[t] -= 1
-    rec({t: 0 for t in tids}, None, 0, [])
+    try:
+        rec({t: 0 for t in tids}, None, 0, [])
+    except _Full:
+        pass
     return out
 
 
